@@ -169,6 +169,25 @@ const FILE_NAMES: [&str; 24] = [
     ".:", "a.>", "a:.b", "x.y.z", "a>b.c:d", "..", "a:", ">b", "fa.", "\u{1d538}.\u{e9}:\u{3bb}",
 ];
 
+/// Files that input themselves: (zs.tex, zt.tex or "", judged). In the judged shapes the name is
+/// followed by a token that does not vanish (the space the line end turns into, an explicit
+/// blank, another token), so TeX nests one level per round and stops at its limit. In the shape
+/// that is not judged the name is followed by `\\fi` and the end of the file: a control word
+/// swallows the line end, the file is used up and closed while the name is still being scanned,
+/// and the recursion never nests - which does not terminate in TeX either.
+const SELF_INPUT_SHAPES: [(&str, &str, bool); 9] = [
+    ("\\input zs", "", true),
+    ("\\input zs\n", "", true),
+    ("x\\input zs ", "", true),
+    ("\\input zs \\relax\n", "", true),
+    ("{\\input zs", "", true),
+    ("\\input zt", "\\input zs", true),
+    ("\\input zt\n", "y\\input zs\n", true),
+    ("\\iftrue\\input zs\\fi", "", false),
+    ("\\input zs\\input zs", "", true),
+];
+const SELF_INPUT_USERS: [&str; 3] = ["\\input zs", "\\input zs ", "a\\input zs b"];
+
 fn template_line(rng: &mut Rng, vocab: &[String]) -> String {
     let num = |rng: &mut Rng| {
         if rng.chance(1, 6) {
@@ -742,6 +761,21 @@ impl Property for C09 {
                 at += 1 + rng.below(3);
             }
         }
+        // Files that input themselves (or each other): the nesting limit must end the run in a
+        // located error (one run in 20).
+        if rng.chance(1, 20) {
+            let k = rng.below(SELF_INPUT_SHAPES.len());
+            let (a, b, _) = SELF_INPUT_SHAPES[k];
+            env.files.retain(|(n, _)| n != "zs.tex" && n != "zt.tex");
+            env.files.push(("zs.tex".to_string(), a.as_bytes().to_vec()));
+            if !b.is_empty() {
+                env.files.push(("zt.tex".to_string(), b.as_bytes().to_vec()));
+            }
+            let at = 1 + rng.below(out.len());
+            let u = rng.below(SELF_INPUT_USERS.len());
+            out.insert(at, SELF_INPUT_USERS[u].to_string());
+            damage.push(format!("self-input shape {k} user {u}"));
+        }
         // Environment fault (one run in 25): the working directory cannot be determined.
         if rng.chance(1, 25) {
             env.no_working_directory = true;
@@ -781,7 +815,43 @@ impl Property for C09 {
             let line = &job.lines[ex.line];
             match &ex.obs.result {
                 LineResult::Ok => {}
-                LineResult::Budget => ev.bump("budget_exceeded"),
+                LineResult::Budget => {
+                    ev.bump("budget_exceeded");
+                    // Judged only for the self-input scenario in its judged shapes, with the
+                    // files and the line exactly as generated (no damage reached them) and the
+                    // default line-end handling (no \\endlinechar or category-code change anywhere
+                    // in the job: with \\endlinechar=-1 a file whose last token is its own \\input
+                    // is used up while the name is still being scanned and never nests, in TeX too).
+                    let default_line_ends = !job
+                        .lines
+                        .iter()
+                        .map(|l| l.as_str())
+                        .chain(job.env.files.iter().map(|(_, b)| std::str::from_utf8(b).unwrap_or("catcode")))
+                        .any(|t| t.contains("endlinechar") || t.contains("catcode"))
+                        && case.damage.iter().any(|d| {
+                            let w: Vec<&str> = d.split(' ').collect();
+                            if w.len() != 5 || w[0] != "self-input" {
+                                return false;
+                            }
+                            let (k, u): (usize, usize) = (w[2].parse().unwrap_or(99), w[4].parse().unwrap_or(99));
+                            if k >= SELF_INPUT_SHAPES.len() || u >= SELF_INPUT_USERS.len() {
+                                return false;
+                            }
+                            let (a, b, judged) = SELF_INPUT_SHAPES[k];
+                            let file = |n: &str| job.env.files.iter().find(|(f, _)| f == n).map(|(_, c)| c.clone());
+                            judged
+                                && line == SELF_INPUT_USERS[u]
+                                && file("zs.tex").as_deref() == Some(a.as_bytes())
+                                && (b.is_empty() || file("zt.tex").as_deref() == Some(b.as_bytes()))
+                                && job.env.file_updates.is_empty()
+                        });
+                    if ex.obs.runaway_input && default_line_ends && ev.violation.is_none() {
+                        ev.violation = Some(Violation {
+                            class: "c09:runaway-input".into(),
+                            detail: format!("line {} `{}`: more than 2000 files were read without a single macro expansion - an \\input recursion that no nesting limit stopped", ex.line, line),
+                        });
+                    }
+                }
                 LineResult::Panic { location, message } => {
                     if ev.violation.is_none() {
                         ev.violation = Some(Violation {
@@ -851,6 +921,11 @@ impl Property for C09 {
         }
         for d in &case.damage {
             let k = d.split(' ').next().unwrap_or("?");
+            if k == "self-input" {
+                // a workload scenario, not a fault
+                ev.bump("reach.self_including_files_scenario");
+                continue;
+            }
             ev.bump(&format!("faults.{}", match k {
                 "truncate" => "truncate_at_byte",
                 "flip" => "byte_flip",
